@@ -35,7 +35,7 @@ type CaseData struct {
 	Kinds []string `json:"kinds"`
 }
 
-var allKinds = []string{"proxy", "structof", "codec", "smallint", "sweep", "import", "sharedcode", "clone", "mutate", "hammer"}
+var allKinds = []string{"proxy", "structof", "codec", "smallint", "sweep", "import", "sharedcode", "clone", "mutate", "hammer", "failfirst"}
 
 type Mismatch struct {
 	Class string `json:"class"`
@@ -668,6 +668,8 @@ func planJobs(c CaseData) []job {
 			}})
 		case "hammer":
 			jobs = append(jobs, hammerJobs(c, tag)...)
+		case "failfirst":
+			jobs = append(jobs, failFirstJobs(c, tag)...)
 		case "mutate":
 			mr := mon.NewRand(c.Seed).Split("mutate")
 			stag := tag + "m"
